@@ -460,6 +460,7 @@ def abstract(case):
 # ------------------------------------------------------------------ the check
 def run(ctx):
     ctx.prove(["Props/C16.vo", "Run/eval_C16.vo"], extra_props=["Compose_C16_C15"])   # + composition C16 <-> C15 (same argv/env reaches the child; repeatable in outcome)
+    import extractlib; extractlib.fn_tie(ctx, ['joinArgs'])   # pure functions translated from the current source, re-proved equal to the models' (tools/notes/Translator.md)
     ctx.trusted_base += [
         "harness/unitrun op shslice (in-process calls of package sh; slices built as arrays[id][off:off+len:off+cap]; deep snapshots of whole arrays) and harness/argvchild (reports os.Args)",
         "checks/c16.py (history generator, Coq printer, oracle with its own $NAME/${NAME} expansion)",
